@@ -88,6 +88,11 @@ pub struct CaseOut {
     /// other simulator engines (no FF optimisation / JIT / 4-state) do not reproduce the reference
     /// trace up to the first mismatching cycle: the RTL side is not trustworthy for this design
     pub rtl_engines_disagree: Option<String>,
+    /// instances with at least one port tied to a constant / partly constant value (hierarchy templates)
+    pub const_tied: usize,
+    /// compound cells (AO21/AO22/OA21/… and AND3/OR3 families) in the children's own netlists, i.e. cells that
+    /// already exist when the parent flattens the child and ties its inputs; (all compound, AO22 only)
+    pub child_compound: (usize, usize),
 }
 
 pub fn netlist_info(m: &GateModule) -> NetlistInfo {
@@ -253,7 +258,7 @@ pub fn run_case(seed: u64, i: u64, o: &Opts) -> CaseOut {
 }
 
 pub fn run_prepared(seed: u64, i: u64, case: Case, o: &Opts) -> CaseOut {
-    let mut out = CaseOut { i, kind: case.kind.clone(), status: String::new(), design: None, stim: None, rtl_varies: false, cfgs: vec![], rtl_engines_disagree: None };
+    let mut out = CaseOut { i, kind: case.kind.clone(), status: String::new(), design: None, stim: None, rtl_varies: false, cfgs: vec![], rtl_engines_disagree: None, const_tied: case.const_tied, child_compound: (0, 0) };
     let d = case.design.clone();
     let md = default_metadata();
     let a = match analyze_one(&d.text, &md) {
@@ -297,6 +302,14 @@ pub fn run_prepared(seed: u64, i: u64, case: Case, o: &Opts) -> CaseOut {
     out.status = "ok".into();
     let top = veryl_parser::resource_table::insert_str(&d.top);
     let rst_high = rst_is_high(&d);
+    for child in &case.children {
+        let cid = veryl_parser::resource_table::insert_str(child);
+        if let Ok(r) = veryl_synthesizer::synthesize(&a.ir, cid, veryl_metadata::Library::Sky130) {
+            let ni = netlist_info(&r.gate_ir.module);
+            out.child_compound.0 += ni.compound;
+            out.child_compound.1 += r.gate_ir.module.cells.iter().filter(|c| c.kind == veryl_synthesizer::ir::CellKind::Ao22).count();
+        }
+    }
     let cfgs = ram_configs(&case, i, o.thorough);
     for (cname, cfg) in cfgs.into_iter().take(o.max_ram_cfgs.max(1)) {
         for &li in &o.libs {
